@@ -38,6 +38,11 @@ def showSt (s : St) : String :=
 
 def parseCall (t : String) : Option (Bool × String × Kind) :=
   match t.splitOn ":" with
+  | [d, w, r, k] => do
+    -- two-cap form: <I|M>:<writecap or ->:<readcap or ->:<kind>
+    let d ← (if d == "I" then some true else if d == "M" then some false else none)
+    let k ← (match k with | "u" => some Kind.unknown | "i" => some Kind.immutable | "m" => some Kind.mutable | _ => none)
+    pure (d, bigcapOf (if w == "-" then "" else w) (if r == "-" then "" else r), k)
   | [d, cap, k] => do
     let d ← (if d == "I" then some true else if d == "M" then some false else none)
     let k ← (match k with | "u" => some Kind.unknown | "i" => some Kind.immutable | "m" => some Kind.mutable | _ => none)
